@@ -556,6 +556,15 @@ def register(E):
     @model(r'^(?:std|core)::hint::(black_box|assert_unchecked|must_use)$')
     def _(E, st, callee, a, m): return [(T, a[0] if a else UNIT)]
 
+    # calls through Fn* traits (boxed closures, fn pointers, generic F)
+    @model(r'^<(.+) as (?:std|core)::ops::(Fn|FnMut|FnOnce)>::(call|call_mut|call_once)$')
+    def _(E, st, callee, a, m):
+        tgt = d(st, a[0])
+        if isinstance(tgt, (Closure, FnItem)):
+            args = a[1].fields if isinstance(a[1], Tup) else [a[1]]
+            return via_call(E, st, tgt, list(args))
+        return None
+
     # ranges
     @model(r'^(?:std|core)::ops::RangeInclusive::(new|start|end|contains|is_empty|into_inner)$|^(?:std|core)::ops::(Range|RangeFrom|RangeTo|RangeToInclusive)::(contains|is_empty)$|^<(?:std|core)::ops::(?:Range|RangeInclusive|RangeFrom|RangeTo|RangeToInclusive) as (?:std|core)::ops::RangeBounds>::contains$')
     def _(E, st, callee, a, m):
